@@ -19,7 +19,8 @@ CORE_TRUST = [
 
 def seq_configs(run, thorough_extra=False):
     # quick: both profiles and both address parities are touched (the odd promotable vtable is reachable only with odd buffers)
-    cfgs = [('debug', 'even'), ('release', 'odd')]
+    # 'pack': small byte buffers laid out back to back (adjacent allocations, as a bump / slab allocator places them)
+    cfgs = [('debug', 'even'), ('release', 'odd'), ('debug', 'pack')]
     if run.tier == 'thorough' or thorough_extra:
         cfgs += [('debug', 'odd'), ('release', 'even'), ('release', 'alt')]
     return cfgs
@@ -99,10 +100,10 @@ def run_seq_streams(run, a, pid, fail_pids, modes=('walk', 'boundary', 'pairs'),
     run.cov['evaluations'] = run.cov.get('evaluations', 0) + total_ops
     run.cov['distinct_nontrivial'] = run.cov.get('distinct_nontrivial', 0) + total_scripts
     run.cov['rule'] = ("T2: operation scripts on Bytes/BytesMut/Vec handles on the real crate under the ledger allocator: seeded random walks "
-                       "(mostly-valid arguments + boundary/out-of-contract stream) from 17 starting representations, and a boundary sweep "
+                       "(mostly-valid arguments + boundary/out-of-contract stream) from 26 starting representations, and a boundary sweep "
                        "(every starting representation x every single op x boundary arguments 0,1,len-1,len,len+1,cap,cap+1,2^63±1,2^64-1-k "
                        "+ random follow-ups), every script ending with all handles dropped in random order; debug and release profiles "
-                       "(thorough: even/odd/alternating address parity); distinct_nontrivial = scripts executed")
+                       "incl. odd addresses and a packing allocator (adjacent buffers) (thorough: every profile x even/odd/alternating parity); distinct_nontrivial = scripts executed")
     if trace_dir:
         return traces
     return total_ops
